@@ -17,6 +17,10 @@ import (
 )
 
 type Obligation struct {
+	pruneAlt bool
+	pruned   int
+	weakSide bool
+	AsFact Term `json:"-"` // the clause as it is assumed after being checked
 	Name   string   `json:"name"`
 	Props  []string `json:"props"`
 	Kind   string   `json:"kind"` // post site inv-init inv-step pre safe cover lemma frame anchor
@@ -105,6 +109,22 @@ func (x *Exec) obligeClause(fr *Frame, st *State, c *Clause, kind, anchor string
 		o.GenErr = err.Error()
 		o.Status = "generr"
 	}
+	o.AsFact = goal
+	if err == nil && strings.Contains(goal, "(forall ") {
+		// the same clause in the form in which it is assumed once checked (side conditions of
+		// dependency contracts attach differently to a fact than to a goal, see Env.quant)
+		env.assumeMode = true
+		if f, ferr := env.evalBool(c.E); ferr == nil {
+			if env.siteWhere != nil {
+				if w, werr := env.evalBool(env.siteWhere); werr == nil {
+					o.AsFact = Implies(w, f)
+				}
+			} else {
+				o.AsFact = f
+			}
+		}
+		env.assumeMode = false
+	}
 	o.PC, o.Goal = st.pc, goal
 	o.NameSensitive = env.nameSens
 	x.addObligation(o)
@@ -158,6 +178,20 @@ func (o *Obligation) smtText(wantModel bool) string {
 
 // smtTextOpt renders the query; with dropQuant the quantified assumptions are left out (the
 // weaker query can only be used to look for candidate counterexamples, never to prove).
+// smtTextPruned renders the query without the assumptions that alternate quantifiers (a forall
+// containing an exists or the other way round). Leaving assumptions out can only make a proof
+// harder, never wrong: "unsat" for the pruned query implies "unsat" for the full one, and no
+// other answer of the pruned query is used. Such facts (e.g. "every parsed version comes from
+// some tag") are what most often sends the solvers into long instantiation chains while being
+// irrelevant to the obligation at hand.
+func (o *Obligation) smtTextPruned() (string, bool) {
+	o.pruneAlt = true
+	defer func() { o.pruneAlt = false }()
+	o.pruned = 0
+	t := o.smtTextOpt(false, false)
+	return t, o.pruned > 0
+}
+
 func (o *Obligation) smtTextOpt(wantModel, dropQuant bool) string {
 	m := o.smt
 	var b strings.Builder
@@ -186,6 +220,10 @@ func (o *Obligation) smtTextOpt(wantModel, dropQuant bool) string {
 		if dropQuant && (strings.Contains(f, "(forall ") || strings.Contains(f, "(exists ")) {
 			continue
 		}
+		if o.pruneAlt && strings.Contains(f, "(forall ") && strings.Contains(f, "(exists ") {
+			o.pruned++
+			continue
+		}
 		b.WriteString("(assert " + f + ")\n")
 	}
 	b.WriteString("(assert " + o.PC + ")\n")
@@ -193,7 +231,26 @@ func (o *Obligation) smtTextOpt(wantModel, dropQuant bool) string {
 		b.WriteString("(assert (not " + o.Goal + "))\n")
 	}
 	b.WriteString("(check-sat)\n")
-	return b.String()
+	text := b.String()
+	// universal facts with side conditions (see Env.quant): conjoined in the main query,
+	// guarded in the auxiliary "weak" one
+	if o.weakSide {
+		return strings.ReplaceAll(text, "(SIDE! ", "(=> ")
+	}
+	return strings.ReplaceAll(text, "(SIDE! ", "(and ")
+}
+
+// smtTextWeak renders the query with guarded side conditions; ok is false when there are none.
+func (o *Obligation) smtTextWeak() (string, bool) {
+	o.weakSide = true
+	defer func() { o.weakSide = false }()
+	t := o.smtTextOpt(false, false)
+	for _, f := range o.smt.facts[:o.nFacts] {
+		if strings.Contains(f, "(SIDE! ") {
+			return t, true
+		}
+	}
+	return t, false
 }
 
 type solverSpec struct {
@@ -210,7 +267,11 @@ var solvers = []solverSpec{
 }
 
 func runSolver(s solverSpec, file string, timeoutS int) (string, float64, string) {
-	ctx, cancel := context.WithTimeout(context.Background(), time.Duration(timeoutS+5)*time.Second)
+	return runSolverCtx(context.Background(), s, file, timeoutS)
+}
+
+func runSolverCtx(parent context.Context, s solverSpec, file string, timeoutS int) (string, float64, string) {
+	ctx, cancel := context.WithTimeout(parent, time.Duration(timeoutS+5)*time.Second)
 	defer cancel()
 	a := s.args(file, timeoutS)
 	cmd := exec.CommandContext(ctx, a[0], a[1:]...)
@@ -233,7 +294,56 @@ func runSolver(s solverSpec, file string, timeoutS int) (string, float64, string
 	if strings.Contains(text, "timeout") {
 		return "timeout", dt, text
 	}
+	if parent.Err() != nil {
+		return "cancelled", dt, text
+	}
 	return "error", dt, text
+}
+
+type solverRun struct {
+	s   solverSpec
+	res string
+	dt  float64
+	out string
+}
+
+// raceSolvers runs the whole portfolio on one query at once; the first definite answer
+// (sat or unsat) wins and the other solvers are stopped.
+func raceSolvers(file string, aux map[string]string, timeoutS int) []solverRun {
+	ctx, cancel := context.WithCancel(context.Background())
+	defer cancel()
+	n := len(solvers)
+	ch := make(chan solverRun, n+2*len(aux))
+	for _, s := range solvers {
+		go func(s solverSpec) {
+			res, dt, out := runSolverCtx(ctx, s, file, timeoutS)
+			ch <- solverRun{s, res, dt, out}
+		}(s)
+	}
+	// auxiliary queries have fewer or weaker assumptions than the main one (see smtTextPruned,
+	// smtTextWeak): "unsat" carries over to the main query, no other answer means anything
+	for tag, f := range aux {
+		for _, s := range solvers[:2] {
+			n++
+			go func(s solverSpec, tag, f string) {
+				res, dt, out := runSolverCtx(ctx, s, f, timeoutS)
+				if res != "unsat" {
+					res = tag + "-" + res
+				}
+				ch <- solverRun{solverSpec{name: s.name + "/" + tag, args: s.args}, res, dt, out}
+			}(s, tag, f)
+		}
+	}
+	var runs []solverRun
+	for i := 0; i < n; i++ {
+		r := <-ch
+		runs = append(runs, r)
+		if r.res == "sat" || r.res == "unsat" {
+			cancel()
+			break
+		}
+	}
+	return runs
 }
 
 // discharge runs the solver portfolio on every obligation.
@@ -296,20 +406,50 @@ func dischargeOne(o *Obligation, dir string, timeoutS int) {
 		want = "sat"
 	}
 	var details []string
-	for i, s := range solvers {
-		if o.Cover && i > 0 {
-			break // reachability covers: one solver, short budget (they only guard against vacuity)
-		}
-		if o.Cover && timeoutS > 5 {
-			timeoutS = 5
-		}
-		res, dt, out := runSolver(s, file, timeoutS)
+	if o.Cover && timeoutS > 5 {
+		timeoutS = 5 // reachability covers: one solver, short budget (they only guard against vacuity)
+	}
+	// Stage 1: the fastest solver alone for a short slice. Stage 2 (proof obligations only):
+	// the whole portfolio at once, first definite answer wins.
+	stage1 := timeoutS
+	if !o.Cover && stage1 > 2 {
+		stage1 = 2
+	}
+	var runs []solverRun
+	{
+		res, dt, out := runSolver(solvers[0], file, stage1)
+		runs = append(runs, solverRun{solvers[0], res, dt, out})
 		o.Seconds += dt
-		details = append(details, fmt.Sprintf("%s:%s(%.2fs)", s.name, res, dt))
-		if res == "error" {
-			details = append(details, trunc(strings.ReplaceAll(out, "\n", " "), 300))
+	}
+	if r := runs[0]; !o.Cover && r.res != "sat" && r.res != "unsat" && timeoutS > stage1 {
+		t0 := time.Now()
+		aux := map[string]string{}
+		if pt, any := o.smtTextPruned(); any {
+			f := strings.TrimSuffix(file, ".smt2") + ".pruned.smt2"
+			if os.WriteFile(f, []byte(pt), 0o644) == nil {
+				aux["pruned"] = f
+			}
 		}
-		if res == want {
+		if wt, any := o.smtTextWeak(); any {
+			f := strings.TrimSuffix(file, ".smt2") + ".weak.smt2"
+			if os.WriteFile(f, []byte(wt), 0o644) == nil {
+				aux["weak"] = f
+			}
+		}
+		more := raceSolvers(file, aux, timeoutS)
+		o.Seconds += time.Since(t0).Seconds()
+		runs = append(runs, more...)
+	}
+	for _, r := range runs {
+		details = append(details, fmt.Sprintf("%s:%s(%.2fs)", r.s.name, r.res, r.dt))
+		if r.res == "error" {
+			details = append(details, trunc(strings.ReplaceAll(r.out, "\n", " "), 300))
+		}
+	}
+	for _, r := range runs {
+		s := r.s
+		switch {
+		case r.res == want:
 			o.Solver = s.name
 			if o.Cover {
 				o.Status = "covered"
@@ -318,21 +458,18 @@ func dischargeOne(o *Obligation, dir string, timeoutS int) {
 			}
 			o.Detail = strings.Join(details, " ")
 			return
-		}
-		if res == "sat" && !o.Cover {
+		case r.res == "sat" && !o.Cover:
 			o.Solver = s.name
 			o.Status = "failed"
 			o.Detail = strings.Join(details, " ")
 			o.Model = getModel(o, file, s, timeoutS)
 			return
-		}
-		if res == "unsat" && o.Cover {
+		case r.res == "unsat" && o.Cover:
 			o.Solver = s.name
 			o.Status = "vacuous"
 			o.Detail = strings.Join(details, " ")
 			return
 		}
-		_ = i
 	}
 	o.Status = "unknown"
 	if !o.Cover && len(o.Watch) > 0 {
